@@ -67,15 +67,34 @@ func RunXP(c *hx.Ctx, prop string) {
 		}
 		a0 := ex.UpstreamAttempts()[0]
 		labels := []string{"S", fmt.Sprintf("XP0:%s", k.reason)}
+		// the per-try callback resets the upstream request (upstreamRequest.resetStream, also on a stream that is gone): the
+		// harness sees that call and so knows that the callback has run before it lets the worker go on
+		fired := make(chan struct{})
+		a0.OnProxyReset(func() { close(fired) })
 		a0.Reset(k.reason)
-		// the per-try timer was armed inside this exchange's worker just before the held call
-		if ex.Elapsed() > dsx.TryTimeout-10*time.Millisecond {
+		// the per-try timer was armed by this exchange's worker just before it entered the held call: the reset must have been
+		// delivered well before that deadline, and the call is released after the callback
+		if f.UpHeldFor() > dsx.TryTimeout-20*time.Millisecond {
 			skewed = true
 		}
-		ex.SleepUntil(dsx.TryTimeout + 10*time.Millisecond)
+		select {
+		case <-fired:
+			time.Sleep(3 * time.Millisecond) // the rest of the callback: a flag and a no-op OnResetStream
+		case <-time.After(dsx.TryTimeout + 60*time.Millisecond):
+			skewed = true // the timer did not fire in time (or its callback gave up before the reset)
+		}
+		a0.OnProxyReset(nil)
+		if f.UpHeldFor() < dsx.TryTimeout-5*time.Millisecond { // the proxy reset the attempt for another reason
+			skewed = true
+		}
 		f.ReleaseUp()
 		ex.WaitQuiescentFor(30 * time.Millisecond) // beyond doRetry's 10 ms back-off
-		if !ex.Done() {
+		// the timing grid: a scheduler stall (loaded machine) that stretches a step may have let a timer fire at a point the
+		// recorded schedule does not show — such a run is discarded (as harness/dsx does)
+		if ex.Done() && len(ex.UpstreamAttempts()) > 1 { // the retried attempt came and went before this goroutine looked
+			skewed = true
+		}
+		if !ex.Done() && !skewed {
 			// the reset is retried: the next attempt exists after doRetry's back-off and is answered / reset at once, well
 			// before its own per-try deadline (answers and resets that are not retriable: the exchange ends there)
 			a1 := ex.WaitAttemptFor(1, 150*time.Millisecond)
@@ -96,10 +115,11 @@ func RunXP(c *hx.Ctx, prop string) {
 				labels = append(labels, "X1:"+k.tail[2:])
 				a1.Reset(k.tail[2:])
 			}
-			ex.WaitQuiescentFor(30 * time.Millisecond)
-			if ex.Elapsed() > dsx.GlobalTimeout-30*time.Millisecond { // too slow: the global timer may have taken part
+			// the answer / reset must have been delivered well before the per-try deadline of attempt 1 and the global deadline
+			if at := ex.Elapsed(); at > a1.Created+dsx.TryTimeout-15*time.Millisecond || at > dsx.GlobalTimeout-40*time.Millisecond {
 				skewed = true
 			}
+			ex.WaitQuiescentFor(30 * time.Millisecond)
 		}
 		toks := ex.DownToks()
 		if toks == nil {
